@@ -95,6 +95,49 @@ class Grammar:
         go(("ref", rule), budget)
         return out
 
+    def derive_cov(self, rng, maxdepth=9, rule=None):
+        """random derivation recording every decision of the EBNF (which alternative / whether a repetition goes on)
+        together with the token that follows the decision point: -> (kinds, set of (decision id, choice, next token)).
+        These triples are what a generated LL parser switches on."""
+        m, size = self.min_sizes()
+        if rule is None:
+            rule = self.model["start"]
+        out = []
+        events = []
+
+        def go(e, depth, path):
+            k = e[0]
+            if k == "tok":
+                out.append(e[1])
+            elif k == "ref":
+                go(self.par[e[1]]["body"], depth + 1, ("r", e[1]))
+            elif k == "eps":
+                pass
+            elif k == "seq":
+                for i, x in enumerate(e[1]):
+                    go(x, depth, path + (i,))
+            elif k == "alt":
+                idx = list(range(len(e[1])))
+                if depth >= maxdepth:
+                    mn = min(size(x) for x in e[1])
+                    idx = [i for i in idx if size(e[1][i]) == mn]
+                i = rng.choice(idx)
+                events.append((path, i, len(out)))
+                go(e[1][i], depth, path + ("a", i))
+            elif k == "star":
+                reps = 0
+                while depth < maxdepth and size(e[1]) < 10 ** 8 and reps < 4 and rng.random() < 0.45:
+                    before = len(out)
+                    events.append((path, 1, before))
+                    go(e[1], depth, path + ("s",))
+                    if len(out) == before:
+                        break
+                    reps += 1
+                events.append((path, 0, len(out)))
+        go(("ref", rule), 0, ())
+        cov = {(p, c, out[pos] if pos < len(out) else 0) for p, c, pos in events}
+        return out, cov
+
     def enumerate_rule(self, rule, max_len, limit=200000):
         """all token sequences of length <= max_len derivable from rule (sets of tuples); may be truncated by limit."""
         memo = {}
